@@ -8,15 +8,16 @@ E1_NOTE = ("Trusted base: rustc/cargo 1.95; E1 runs /repo's unmodified parser+ge
 CHECKS = {
     "C09": dict(engine="E1 xpand + E3", design="§5 C09", note=E1_NOTE,
                 technique="explicit-state enumeration of the legal configuration space with the real generator in-process; closure-text classes re-run on the real derive; all configurations with <=k features run directly; transcript hashes compared pairwise per item",
-                text="All legal feature/mode configurations (quick: on/off features thinned to <=2 or >=11 enabled; thorough: all 4.7M) are expanded for 3 "
-                     "archetypes; per item the classes of closure text are formed and one representative per class is run with the real derive on the "
+                text="All legal feature/mode configurations (quick: on/off features thinned to <=2 or >=11 enabled; thorough: all 4.7M) are expanded for 4 "
+                     "archetypes (gapless, few/large holes, many runs); per item the classes of closure text are formed and one representative per class is run with the real derive on the "
                      "family enums against the configuration-independent reference model; additionally transcripts of each item are compared across "
                      "all configurations of one enum (no hand-written expectation)."),
     "C10": dict(engine="E1 xpand + E2 + E3", design="§5 C10", note=E1_NOTE,
                 technique="explicit-state enumeration of the configuration space (accepted / no duplicate definition / closed references) + rustc judging every distinct local context, every documented mode/name/vis/struct_name value, full-minus-k sets, and all attribute splittings",
                 text="Every legal configuration is accepted by the real generator; each distinct local context, each documented parameter value and the "
                      "full feature set minus <=1 (thorough: <=2) features compile with the real toolchain on gapless/with-holes enums in i8,u16,i64; "
-                     "all configurations with <=2 (3) features are built and run; splitting over attributes gives a textually identical expansion. "
+                     "all configurations with <=2 (3) features are built and run; splitting over attributes gives a textually identical expansion; every feature "
+                     "compiles on enums named like any identifier the generated code introduces itself (52 names: all capital letters, usual generic names). "
                      "Known finding D5: iter(mode=\"match\")."),
 }
 
@@ -29,7 +30,8 @@ CHECKS.update({
     "C11": dict(engine="E3 subjects+driver", design="§5 C11", note=E3_NOTE,
                 technique="bounded-exhaustive grammar enumeration of in-domain declarations (implicit/explicit mixes to n<=3/4 over a boundary value set, 80+ literal spelling styles, sizes, foreign attributes) derived by the real macro and checked at run time against `v as repr`",
                 text="Every declaration of the grammar is in the documented domain by construction; each must compile with the real derive and at run time "
-                     "into/try_from/iter/MIN/MAX/next/as_str must agree with the compiler's discriminants (reference evaluator cross-checked per subject)."),
+                     "into/try_from/iter/MIN/MAX/next/as_str must agree with the compiler's discriminants (reference evaluator cross-checked per subject); "
+                     "also: the whole 8-bit types with early/late holes under every feature, 67 enum names, and declarations produced by 9 forms of macro_rules! macros."),
     "C12": dict(engine="E2 rustc oracle", design="§5 C12", note=E2_NOTE,
                 technique="bounded-exhaustive mutation grammar over declarations (item kinds, fields, discriminant expression grammar to depth 2 in each position, out-of-i64 values, repr forms, 65535+ variants), every case judged by rustc",
                 text="Each case breaks exactly one documented rule starting from a base that is checked to compile; the case must fail to compile. "
@@ -37,11 +39,11 @@ CHECKS.update({
     "C13": dict(engine="E2 rustc oracle", design="§5 C13", note=E2_NOTE,
                 technique="bounded-exhaustive mutation menu over attribute contents (unknown features/parameters closedness matrix, duplicates, bad mode/vis values, wrong kinds, contradictions, variant-level attributes), every case judged by rustc",
                 text="Each case is one change away from a legal parent (parents are checked to compile) on a gapless and a with-holes enum, in one or "
-                     "several attributes; every mutated case must fail to compile."),
+                     "several attributes (variant attributes: invalid one first / last / in the middle of several), contradictions also on ten larger shapes; every mutated case must fail to compile."),
     "C14": dict(engine="E2 rustc oracle", design="§5 C14", note=E2_NOTE,
                 technique="exhaustive enumeration of all n! declaration orders (n<=3/4) x implicit/explicit patterns x 15 name assignments x sorted forms; every case expanded by the real parser in-process, rustc accept/reject (quick: fixed 1-in-6 slice + every disagreement; thorough: all) compared with the reference predicate",
                 text="compiles <=> strictly ascending discriminants (sorted(value)) / strictly ascending byte-wise names after renaming (sorted(name)) / both; "
-                     "without sorted every order compiles."),
+                     "without sorted every order compiles. Windows: small i8/u8 values and the i64 limits."),
 })
 
 CHECKS.update({
@@ -54,12 +56,12 @@ CHECKS.update({
                      "attributes, name/vis parameters) every assignment of iteration orders to the parser's map iterations is executed on the real "
                      "parser+generator (maps with more than 7 entries: a fixed O(n^2) family of permutations, reported as capped); exactly one distinct "
                      "expansion text is required; the same schedule must reproduce; the same declaration must expand identically after different histories "
-                     "of earlier expansions in the process."),
+                     "of earlier expansions in the process (forward, reverse, and - for a family of same-named enums of different shape - alone)."),
     "C18": dict(engine="E3 subjects+driver", design="§5 C18", note=E3_NOTE,
                 technique="exhaustive enumeration of all n! declaration orders x all admissible reprs per value set; per-item transcript hashes compared within each value set and against the reference model",
                 text="Every value set of size <=3 (quick) / <=4 from a 6-window plus sets touching the i8/u8/i16/u16/(i32/u32/i64) limits and 300-value sets, all "
                      "declaration orders (large sets: two), every repr that can hold it, full feature set in table, match and auto modes; names are attached to "
-                     "values. All subjects of a value set must produce identical transcripts."),
+                     "values. All subjects of a value set must produce identical transcripts; limit sets are explored a second time among the >=64-bit reprs with the unclipped argument neighbourhood."),
 })
 
 CHECKS.update({
@@ -69,17 +71,17 @@ CHECKS.update({
                 text="Each generated item must be reachable under the requested name exactly at the sites its requested visibility allows (positive and negative "
                      "probes, negative ones must fail with a privacy/unresolved error), the default name must not exist after renaming, helper items discovered by "
                      "E1 must be private, a user must be able to define every default name and implement every trait that was not requested, and dependants must "
-                     "work when every item is renamed (built and run)."),
+                     "work when every item is renamed (built and run); default struct names are EnumName+Iter/Names for 25 enum names incl. raw and non-ASCII identifiers."),
     "C16": dict(engine="E3 subjects+driver + E2 + E1 cover", design="§5 C16", note=E3_NOTE + " Primitive type names (str, usize, ...) are language built-ins, not prelude/core "
                 "items, and are not shadowed. Edition-2015 user crates are outside the statement.",
                 technique="finite menu of hostile scopes (no_std rlib, no_implicit_prelude, ~70 prelude/core names shadowed all-at-once and singly in three guises, 19 shadowed macros) x configuration class cover; compiled, run, transcripts compared with the plain scope",
                 text="Every distinct generated item text (closure-class cover from E1) is placed in every hostile scope, must compile with the real derive and "
-                     "produce per-item transcripts identical to the plain scope and to the reference model; no_std subjects are an rlib driven from a std binary."),
+                     "produce per-item transcripts identical to the plain scope and to the reference model; no_std subjects are an rlib driven from a std binary. Enums: i8/u8/u16/usize/isize, a 20-run enum, enums named like generics; plus a scope with two sibling derives."),
     "C19": dict(engine="E2 rustc oracle + E1 xpand", design="§5 C19", note=E2_NOTE,
                 technique="signature ascription probes (const/static contexts, fn-pointer types, associated types, trait bounds) for every feature x mode x shape x 12 reprs judged by rustc; explicit-state enumeration of all configurations showing exactly one signature class per user-visible item",
                 text="into usable in const/static/const-fn contexts, MIN/MAX associated constants of type E, Option<Self>/Result<Self,()>/&'static str return types, "
                      "iterator structs implementing the four iterator traits with the documented item types - for all features, modes, gapless/with-holes and "
-                     "12 reprs; at token level no user-visible item has a mode- or shape-dependent signature."),
+                     "12 reprs, every documented vis value, and a shape family (full 8-bit types, type limits, 20 runs, 300 variants); at token level no user-visible item has a mode- or shape-dependent signature."),
 })
 
 CHECKS.update({
@@ -89,7 +91,7 @@ CHECKS.update({
                      "(nightly) as an interpreter with UB detection over the executions the driver enumerates - the coverage statement is the enumeration, not a proof.",
                 technique="the bounded exhaustive drivers of C01-C08 (all 8/16-bit arguments, string neighbourhoods, all variant pairs, iterator operation histories) executed on expansions with a monitor on every unchecked assumption, and on the unmodified derive under the Miri interpreter",
                 text="Every transmute, unwrap_unchecked and assume_init of the generated code is checked at the moment it executes, for every argument / pair / history the "
-                     "drivers enumerate, in six mode sets that reach every unsafe site, on F(2,2,2)+L+P+A (quick) / +F(3,3,3)+R+M, all reprs (thorough, also an optimised build); "
+                     "drivers enumerate, in six mode sets that reach every unsafe site, on F(2,2,2)+L+P+A+R+D (quick) / +F(3,3,3)+R+M, all reprs (thorough, also an optimised build); "
                      "every returned value must carry a declared discriminant. A Miri slice (quick: the 3 archetypes x mode sets; thorough: +F(1,2,1) x 4 "
                      "reprs) covers unsafe operations the monitor list does not know."),
 })
